@@ -405,11 +405,13 @@ func documents(r *sim.R) {
 // Run executes one hostile run.
 func Run(r *sim.R) {
 	r.Order = r.T.Weighted([]int{3, 1, 1}, "order-policy")
-	switch r.T.Weighted([]int{4, 3, 2, 3, 3, 2, 3, 3, 4, 1}, "family") {
+	switch r.T.Weighted([]int{4, 3, 2, 3, 3, 2, 3, 3, 4, 1, 1}, "family") {
 	case 8:
 		typedTargets(r)
 	case 9:
 		recursive(r)
+	case 10:
+		oddities(r)
 	case 7:
 		// well-formed reference graphs of every shape (cycles through dictionaries and lists,
 		// absorbed cycles, drifting environments, failing resolvers) read through every entry point
